@@ -1,4 +1,5 @@
 import RNacos.Lemmas.LogCrash
+import RNacos.Lemmas.LogTorn
 /-!
 # C04 — Raft store is crash-consistent at every file-write boundary
 
@@ -7,9 +8,13 @@ ONE file write is atomic under the property's crash model, so the crash points i
 invariant `WF` (C02) holds at both.  Appends that do not complete an index step and `write_last_applied_log` /
 `write_index` (C05) are of this kind.  The append that completes an index step issues two writes (record, then index
 entry): the crash point between them is `torn_index_step` – the recovery with its repair (`repairIndex`, added by
-fix F24) reconstructs exactly the file the complete append produces.  The remaining multi-write operations
-(truncation: index area, then records; rollover; multi-file truncation; the interleaving of the four actors' writes)
-are decided by enumeration of every prefix of the real journal of file mutations (`./check C04`), which is where F24,
+fix F24) reconstructs exactly the file the complete append produces.  The truncation inside one file issues two
+writes as well (the dropped index entries are zeroed, then the removed records): the crash point between them is
+`torn_truncation` – the recovery writes back every dropped index entry and yields the file as it was before the
+truncation, a log that existed, for any position of the cut and any number of dropped entries, as long as the records
+behind the block of the cut fit the scan limit of `init` (65535 records; see `torn_truncation` for the excluded
+region).  The remaining multi-write operations (rollover; multi-file truncation; the interleaving of the four actors'
+writes) are decided by enumeration of every prefix of the real journal of file mutations (`./check C04`), which is where F24,
 F25 and F26 were found.
 -/
 namespace RNacos.Props.C04
@@ -53,7 +58,56 @@ theorem torn_index_step (f : LogFile) (es : List Rec) (r : Rec) (h : WF f es) (h
 theorem repair_is_identity_on_complete_files (fuel : Nat) (f : LogFile) (es : List Rec) (h : WF f es) :
     repairIndex fuel f = f := repairIndex_noop fuel f es h
 
+/-- **the torn truncation**: `strip_log_to(k)` issues two file writes – the index entries behind the block that holds
+the cut are zeroed, then the removed records are.  Killed in between, for any cut inside the file, any number of
+dropped index entries and any record sizes, the next start recovers a well-formed file that holds every entry the file
+held before the truncation (the repair writes the dropped index entries back one by one): the log exposed is one that
+existed, nothing acknowledged is lost and nothing is invented.
+
+Hypothesis `hscan` is forced by the code: `init` scans at most 65535 records behind the last index entry it finds.  A
+truncation that drops index entries and leaves more than 65535 records behind the block of the cut – possible only in a
+file of more than 65535 records cut back by more than that – is outside the theorem; there the recovered log would end
+65535 records behind that block while later record bytes remain in the file (not reached by the enumeration of
+`./check C04`, whose histories are far smaller; recorded as a limit in DESIGN.md). -/
+theorem torn_truncation (f : LogFile) (es : List Rec) (k : Nat) (h : WF f es)
+    (hs : f.startIndex ≤ k) (hlt : k < f.startIndex + es.length)
+    (hscan : es.length - (k - f.startIndex) / f.interval * f.interval ≤ 0xffff) (fl pre sp : Nat) :
+    ∃ idx len pop, findIdx f k = some (idx, len, pop) ∧
+      WF (load (RNacos.IndexFile.writeAt f.bytes (f.indexCursor - len) (List.replicate len 0)) fl f.startIndex pre sp) es :=
+  torn_strip_recovers f es k h hs hlt hscan fl pre sp
+
+/-- the bytes named in `torn_truncation` are those `strip_log_to` has written when its first write is done (its
+second write, the zeroing of the records, starts from them) -/
+theorem truncation_first_write (f : LogFile) (k : Nat) (idx : Idx) (len pop : Nat) (hpop : pop > 0) :
+    ∃ g : LogFile, g.bytes = RNacos.IndexFile.writeAt f.bytes (f.indexCursor - len) (List.replicate len 0) ∧
+      (stripCore f k idx len pop).bytes =
+        RNacos.IndexFile.writeAt g.bytes (moveByCount g.bytes idx g.startIndex (k - idx.logIndex)).1
+          (List.replicate (f.dataCursor - (moveByCount g.bytes idx g.startIndex (k - idx.logIndex)).1) 0) := by
+  refine ⟨{ f with indexs := f.indexs.take (f.indexs.length - pop), indexCursor := f.indexCursor - len,
+                   bytes := RNacos.IndexFile.writeAt f.bytes (f.indexCursor - len) (List.replicate len 0) }, rfl, ?_⟩
+  unfold stripCore
+  simp [hpop]
+
+/-- a truncation that drops no index entry issues one file write: its crash points are its two ends -/
+theorem truncation_without_index_entries_is_one_write (f : LogFile) (k : Nat) (idx : Idx) (len : Nat) :
+    (stripCore f k idx len 0).bytes =
+      RNacos.IndexFile.writeAt f.bytes (moveByCount f.bytes idx f.startIndex (k - idx.logIndex)).1
+        (List.replicate (f.dataCursor - (moveByCount f.bytes idx f.startIndex (k - idx.logIndex)).1) 0) := by
+  unfold stripCore
+  simp
+
 /-! ### non-vacuity -/
 example : isFull (create 1 0 0) = false ∧ (create 1 0 0).curCount + 1 ≠ (create 1 0 0).interval := by decide
+
+/-- the torn truncation on a concrete file (index step 2, five records, cut at index 2: two index entries are
+dropped): the hypotheses of `torn_truncation` are met and the file opened from the torn bytes returns all five records -/
+example :
+    let f := (run (create 1 0 0 2, []) [.append ⟨1, 1, [7]⟩, .append ⟨2, 1, [8, 8]⟩, .append ⟨3, 2, [9]⟩,
+      .append ⟨4, 2, []⟩, .append ⟨5, 3, [1]⟩]).1
+    f.startIndex ≤ 2 ∧ 2 < endIndex f ∧ ((findIdx f 2).map fun x => x.2.2) = some 2 ∧
+    ((findIdx f 2).map fun x =>
+      readRecords (load (RNacos.IndexFile.writeAt f.bytes (f.indexCursor - x.2.1) (List.replicate x.2.1 0)) f.fileLen 1 0 0) 0 9) =
+      some (some [⟨1, 1, [7]⟩, ⟨2, 1, [8, 8]⟩, ⟨3, 2, [9]⟩, ⟨4, 2, []⟩, ⟨5, 3, [1]⟩]) := by
+  decide +kernel
 
 end RNacos.Props.C04
